@@ -515,18 +515,22 @@ fn e_sanitize_html(p: &[Vec<u8>]) -> Ret {
         b'3' => ruma_html::remove_html_reply_fallback(&s),
         _ => {
             let h = Html::parse(&s);
-            h.sanitize();
-            // walk the tree the way a client rendering the message would
+            // walk the tree the way a client rendering the message would, before and after sanitizing
             let mut n = 0usize;
-            let mut stack: Vec<_> = h.children().collect();
-            while let Some(node) = stack.pop() {
-                n += 1;
-                if let Some(el) = node.as_element() {
-                    n += el.attrs.borrow().len();
-                    // the typed view of the element and its attributes (ruma-html feature `matrix`)
-                    n += format!("{:?}", el.to_matrix()).len() & 1;
+            for pass in 0..2 {
+                if pass == 1 {
+                    h.sanitize();
                 }
-                stack.extend(node.children());
+                let mut stack: Vec<_> = h.children().collect();
+                while let Some(node) = stack.pop() {
+                    n += 1;
+                    if let Some(el) = node.as_element() {
+                        n += el.attrs.borrow().len();
+                        // the typed view of the element and its attributes (ruma-html feature `matrix`)
+                        n += format!("{:?}", el.to_matrix()).len() & 1;
+                    }
+                    stack.extend(node.children());
+                }
             }
             format!("{n} {h}")
         }
